@@ -37,7 +37,7 @@ def _gen_call(rng):
     return {
         "stack": {"n_snap": n_snap, "n_grains": n_grains, "seed": rng.randrange(1 << 30),
                   "kind": rng.choice(["random", "random", "clustered", "mixed"]),
-                  "dup": rng.random() < 0.2},
+                  "dup": rng.random() < 0.2, "runs": rng.random() < 0.25},
         "system": rng.choice(SYSTEMS[:5] * 3 + SYSTEMS[5:]),
         "bins": rng.choice([None, None, 10, 45, 90]),
         "path": rng.choice(["pool", "pool", "ncpus", "ncpus", "ray"]), "W": W,
@@ -83,6 +83,15 @@ def build_stack(spec):
         snaps.append(A)
     if spec.get("dup") and n >= 3:
         snaps[-1] = snaps[0].copy()
+    if spec.get("runs") and n >= 2:
+        # consecutive repeats (a pathline crossing a stagnant region records identical textures)
+        r2 = np.random.default_rng(spec["seed"] + 1)
+        k = 0
+        while k < n:
+            ln = int(r2.integers(1, 5))
+            for j in range(k + 1, min(k + ln, n)):
+                snaps[j] = snaps[k].copy()
+            k += ln
     if n == 0:
         return np.empty((0, g, 3, 3))
     return np.stack(snaps)
@@ -304,17 +313,14 @@ def _one_call(scn, k, shared_pool, verdicts, c):
               {"got": got.tolist(), "expected": exp.tolist(), "path": scn["path"], "W": scn["W"],
                "system": scn["system"], "call_index": k,
                "completion_order": [int(x) for x in comp]})
-        # every snapshot handed to the pool exactly once, in snapshot order
-        if len(submitted_items) != n:
-            v("exactly_once", {"submitted_to_pool": len(submitted_items), "snapshots": n,
-                               "path": scn["path"]})
-        else:
-            for j, it in enumerate(submitted_items):
-                a = np.asarray(it)
-                if a.shape != stack[j].shape or not np.array_equal(a, stack[j]):
-                    v("exactly_once", {"what": "item handed to the pool is not the snapshot at "
-                                               "that position", "position": j, "path": scn["path"]})
-                    break
+        # informational only (how PyDRex feeds the pool is not part of the property: a correct
+        # implementation may, e.g., skip repeated snapshots): was every snapshot handed to the
+        # pool exactly once, in snapshot order?
+        same = len(submitted_items) == n and all(
+            np.asarray(it).shape == stack[j].shape and np.array_equal(np.asarray(it), stack[j])
+            for j, it in enumerate(submitted_items))
+        key = "pool_fed_each_snapshot_once_in_order" if same else "pool_fed_differently"
+        c[key] = c.get(key, 0) + 1
         if scn["path"] == "ncpus" and factory_calls != [scn["W"]]:
             # informational only: how many workers PyDRex asks for is not part of the property
             c["pool_factory_called_with_other_worker_count"] = \
@@ -387,12 +393,12 @@ def uncontrolled_supplement():
 RUNS = {"quick": 5000, "thorough": 90000}
 RULE = ("one evaluation = a seeded history of 1-4 batched calls (an externally supplied pool may be "
         "reused by later calls with other stacks, lattice systems and bin counts), each call a seeded "
-        "stack (0-12 snapshots x 2-40 grains; random, clustered, mixed, with a duplicated snapshot in "
+        "stack (0-12 snapshots x 2-40 grains; random, clustered, mixed, with a duplicated snapshot or runs of 1-4 consecutive identical snapshots in "
         "a share) pushed through misorientation_indices via one of three entry paths: pool=SimPool, ncpus=k with pydrex.diagnostics.Pool rebound to a SimPool "
         "factory, or the Ray branch against a stub; SimPool has W in 1..16 simulated workers, "
         "seeded task durations (heavy-tailed / one slow task / decreasing), stalls, lazy feeding and "
         "chunking; the result must equal the scalar function applied snapshot by snapshot, bit for "
-        "bit and in order, and every snapshot must be handed to the pool exactly once, in snapshot order. "
+        "bit and in order (whether every snapshot is handed to the pool exactly once is recorded, not judged). "
         "distinct = distinct (entry path, W, stack length, simulated completion order); non-trivial "
         "= the simulated completion order differs from the submission order")
 COMPONENTS = {
